@@ -101,7 +101,7 @@ def sensitivity(argv):
     only = set(argv)
     results = []
     catalog = []
-    for meta_path in sorted(glob.glob(os.path.join(VERIF, "mutants", "*.json"))
+    for meta_path in sorted([p for p in glob.glob(os.path.join(VERIF, "mutants", "*.json")) if not p.endswith("equivalent.json")]
                             + glob.glob(os.path.join(VERIF, "seeded", "*", "meta.json"))):
         with open(meta_path) as fh:
             meta = json.load(fh)
@@ -129,6 +129,7 @@ def sensitivity(argv):
                 p = subprocess.run([os.path.join(VERIF, "check"), pid, "quick"], capture_output=True, text=True, env=env)
                 sig = next((ln for ln in p.stdout.splitlines() if ln.startswith("violation:")), "")
                 results.append({"mutant": name, "property": pid, "exit": p.returncode, "caught": p.returncode == 1,
+                                "expected_missed": meta.get("expected_missed"),
                                 "signature": sig[:300], "wall_s": round(time.time() - t0, 1)})
                 print(f"{name} -> {pid}: {'CAUGHT' if p.returncode == 1 else 'exit ' + str(p.returncode)} {sig[:160]}", flush=True)
         finally:
@@ -141,6 +142,6 @@ def sensitivity(argv):
             prev = [r for r in json.load(fh).get("results", []) if r.get("mutant") not in only]
     with open(out, "w") as fh:
         json.dump({"at": time.strftime("%Y-%m-%dT%H:%M:%SZ", time.gmtime()), "results": prev + results}, fh, indent=1)
-    missed = [r for r in results if not r.get("caught")]
+    missed = [r for r in results if not r.get("caught") and not r.get("expected_missed")]
     print(f"sensitivity: {len(results) - len(missed)} caught, {len(missed)} missed")
     return 0 if not missed else 1
